@@ -1,14 +1,19 @@
 SPECIFICATION Spec
 CONSTANTS
   N = 4
-  BaseEps <- Eps14
+  BaseEps <- One
   MatEps <- Eps14
   PVals <- P012
   MaxHist = 2
-  Backup = "all"
-  Scenes <- Pair
+  Backup = "any"
+  Scenes <- Disp
   DispWrite = "every"
 INVARIANT TypeOK
+INVARIANT DeviceCells
+INVARIANT Range
+INVARIANT DiscreteExact
 INVARIANT OutsideUnchanged
 INVARIANT HistoryIndependent
+INVARIANT DispCells
+INVARIANT DispOutsideUnchanged
 CHECK_DEADLOCK TRUE
